@@ -148,5 +148,16 @@ def main(prop, tier, seed, replay_file):
             "cluster: 3 brokers, 2 bootstrap hosts, topics a{0,1} b{0}, one group; version discovery disabled here",
         ]
         run_client(chk, prop, tier, seed)
+        if prop == "C20":
+            # closing the client closes every broker client: what close() does to one connection's requests
+            # (BrokerConn.tla, incl. callbacks that cancel siblings re-entrantly) is part of C20 too
+            from . import check_conn
+
+            def alias(clause, step):
+                e = step["e"]
+                if e.get("a") == "Close" or e.get("cb", {}).get("a") == "Close":
+                    return "C20.broker_client_close"
+                return None
+            check_conn.run_conn(chk, "C20", tier, seed, alias=alias)
 
     run_check(prop, tier, seed, body)
